@@ -101,6 +101,12 @@ class Gen:
             return "(-%s)" % E("int")
         if ty == "long":
             c = r.random()
+            lfs = [f for f in self.fns if f.ret == "long" and not f.name.startswith("rec")]
+            if lfs and r.random() < 0.2:
+                # the result of a long-returning call combined with ints: long arithmetic whatever the body returned
+                f = r.choice(lfs)
+                callsrc = "%s(%s)" % (f.name, ", ".join(self.expr(env, "int" if t == "long" else t, 1) for t, _ in f.params))
+                return r.choice(["(%s + %s)" % (callsrc, callsrc), "(%s * 3)" % callsrc, "(%s + 2147483647)" % callsrc])
             if c < 0.6:
                 other = r.choice(["long", "int"])
                 a, b = E("long"), E(other)
@@ -418,7 +424,9 @@ class Gen:
         name = "fn%d" % idx
         env = {n: t for t, n in params}
         body = self.block(env, 1, {}, n=r.randrange(1, 4), ret=ret)
-        tail = "" if ret == "void" else " return %s;" % self.expr(env, ret, 2)
+        # a long-returning function may return an int expression: the result is a long at the call site
+        rty = "int" if (ret == "long" and r.random() < 0.4) else ret
+        tail = "" if ret == "void" else " return %s;" % (r.choice(["2000000000", "2147483647"]) if (rty == "int" and r.random() < 0.5) else self.expr(env, rty, 2))
         # body is "{ ... }": splice the final return in
         src = "function %s(%s) -> %s %s" % (name, ", ".join("%s %s" % p for p in params), ret, body[:-1] + tail + " }")
         self.fns.append(Fn(name, params, ret))
